@@ -526,10 +526,12 @@ func bestFrom(l []sg, from int) (best int64, found bool) {
 	return
 }
 
+var opName = map[string]string{"active": "ActiveAt", "magat": "MagnitudeAt", "maxafter": "MaxAfter", "cut": "Cut", "shift": "Shift",
+	"dur": "Duration", "max": "Max", "summag": "SumMagnitude", "sum": "Sum", "mactive": "modepb.ActiveAt", "mmagat": "modepb.MagnitudeAt",
+	"mmaxafter": "modepb.MaxSegmentAfter", "mcut": "modepb.Cut", "mshift": "modepb.Shift", "msum": "modepb.Sum"}
+
 func (c scase) monitor(m *lib.Monitor, o outcome) {
-	name := map[string]string{"active": "ActiveAt", "magat": "MagnitudeAt", "maxafter": "MaxAfter", "cut": "Cut", "shift": "Shift",
-		"dur": "Duration", "max": "Max", "summag": "SumMagnitude", "sum": "Sum", "mactive": "modepb.ActiveAt", "mmagat": "modepb.MagnitudeAt",
-		"mmaxafter": "modepb.MaxSegmentAfter", "mcut": "modepb.Cut", "mshift": "modepb.Shift", "msum": "modepb.Sum"}[c.Op]
+	name := opName[c.Op]
 	if strings.HasPrefix(o.text, "panic:") {
 		m.Violate("C18/"+name+"/panic", name+" panicked", c, "no panic", o.text)
 		return
@@ -687,7 +689,7 @@ func (c scase) monitor(m *lib.Monitor, o outcome) {
 				want += v
 			}
 			if got := realMag(t, o.segs); got != want {
-				if t >= h-3 && want < 0 && got == 0 {
+				if droppedTail(o.segs, t, want, far(ls, 0, 0)) && got == 0 {
 					bad("negative-infinite-tail-dropped", "Sum drops the final length-less segment when its summed magnitude is negative",
 						fmt.Sprintf("%d at t=%d", want, t), fmt.Sprintf("%d (result %s)", got, o.text))
 					continue
@@ -808,7 +810,7 @@ func (c scase) monitor(m *lib.Monitor, o outcome) {
 				want += v
 			}
 			if got := realModeMag(0, o.mode, y); got != want {
-				if y >= h-3 && want < 0 && got == 0 {
+				if droppedTail(o.mode.Segments, y-earliest, want, far(all, 0, 0)) && got == 0 {
 					bad("negative-infinite-tail-dropped", "modepb.Sum (through segmentpb.Sum) drops the final length-less segment when its summed magnitude is negative",
 						fmt.Sprintf("%d at %d", want, y), fmt.Sprintf("%d (%s)", got, o.text))
 					continue
@@ -817,6 +819,42 @@ func (c scase) monitor(m *lib.Monitor, o outcome) {
 				break
 			}
 		}
+	}
+}
+
+// far is the value of the pointwise sum of the lists "at infinity": the sum of the magnitudes of
+// their (first) length-less segments.
+func far(ls [][]sg, _, _ int64) int64 {
+	var v int64
+	for _, l := range ls {
+		sp, _, inf := spans(l)
+		if inf {
+			v += sp[len(sp)-1].mag
+		}
+	}
+	return v
+}
+
+// droppedTail recognises the recorded defect of Sum exactly: the result is finite, t is at or after
+// its end, and the expected value there is already the negative value "at infinity" (i.e. appending
+// one length-less segment of that magnitude to the result would make it right at t).
+func droppedTail(result []*traits.ElectricMode_Segment, t, want, atInfinity int64) bool {
+	var end int64
+	for _, s := range result {
+		if s == nil || s.Length == nil {
+			return false
+		}
+		end += int64(s.Length.AsDuration())
+	}
+	return atInfinity < 0 && want == atInfinity && t >= end
+}
+
+// safeMonitor runs the monitor; if evaluating the real MagnitudeAt on a result blows up (e.g. a nil
+// element in a returned list) that is a violation of the property, not a crash of the harness.
+func (c scase) safeMonitor(m *lib.Monitor, o outcome) {
+	panicked, msg := lib.Catch(func() { c.monitor(m, o) })
+	if panicked {
+		m.Violate("C18/"+opName[c.Op]+"/result-unusable", "the result of the operation cannot be read as a step function (MagnitudeAt panics on it)", c, "a well-formed result", o.text+" -> panic: "+msg)
 	}
 }
 
@@ -1002,7 +1040,7 @@ func runSeg(f lib.Flags, res *lib.Result, drv *lib.Driver) {
 	k2 := res.Tie("segments-exhaustive-small", "K2",
 		"all lists of <=3 segments over mag {-1,0,1,2} x len {0,1,2,absent}: Duration, Max, SumMagnitude on each; ActiveAt, MagnitudeAt, MaxAfter, Shift for every d in -1..total+1 (Shift also -d); "+
 			"Cut of every segment at d in -1..4; Sum of all ordered pairs of lists of <=2 segments (quick) / plus all triples of lists of <=1 segment and pairs (<=3, <=1) (thorough); "+
-			"modepb ops on lists of <=2 segments x start in {absent,0,2} x t in -1..total+3; distinct = distinct request line; non-trivial = some list non-empty")
+			"modepb read/Cut/Shift on lists of <=2 segments x start in {absent,0,2} x t in -1..total+3 (d in -3..3), modepb.Sum of all pairs of lists of <=1 segment and all triples over {e, 1/1, 2/i}, each x starts {absent,0,2}; distinct = distinct request line; non-trivial = some list non-empty")
 	k2.Exhaustive = true
 	var cases []scase
 	l3 := smallLists(3)
@@ -1069,6 +1107,21 @@ func runSeg(f lib.Flags, res *lib.Result, drv *lib.Driver) {
 			}
 		}
 	}
+	tiny := [][]sg{nil, {{mag: 1, len: 1}}, {{mag: 2, inf: true}}}
+	for _, a := range tiny {
+		for _, b := range tiny {
+			for _, c := range tiny {
+				for _, sa := range starts {
+					for _, sb := range starts {
+						for _, sc := range starts {
+							ms := []md{{sa.hasStart, sa.start, a}, {sb.hasStart, sb.start, b}, {sc.hasStart, sc.start, c}}
+							cases = append(cases, scase{"msum", "", showMds(ms)})
+						}
+					}
+				}
+			}
+		}
+	}
 	compareSeg(k2, mon, drv, cases)
 
 	// K1: the property's random domain
@@ -1113,7 +1166,7 @@ func compareSeg(t *lib.Tie, mon *lib.Monitor, drv *lib.Driver, cases []scase) {
 			t.Record(key, nontrivial, c, model[i], o.text)
 			mon.Eval(key, nontrivial, nil)
 			mon.Count(c.Op)
-			c.monitor(mon, o)
+			c.safeMonitor(mon, o)
 		}
 	}
 	_ = sort.Ints
